@@ -621,13 +621,19 @@ def token_case(i):
     d = {"StartAt": "T", "States": {"T": task, "Z": {"Type": "Pass", "End": True}}}
     reply = rng.choice([[{"noreply": True}], [{"ok": {"op": "const", "value": {"ordinary": "reply"}}, "delay": rng.choice([0.5, 1.5, 2.5])}]])
     cfg = E.policy_cfg(rng.choice(["canonical", "shuffle", "latency-small"]))
-    cfg.update(execution_ttl=120, transport=rng.choice(["asyncio", "asyncio", "blocking"]))
+    cfg.update(execution_ttl=120, transport="asyncio")      # (the blocking front end has no SendTaskSuccess action)
     scn = {"machines": {"m": {"definition": d, "type": "STANDARD", "family": "token"}},
            "executions": [{"machine": "m", "input": {"k": 3}, "name": "e1"}], "script": {"cb": reply},
            "functions": ["cb"], "config": cfg}
     t_cb = rng.choice([1.0, 2.0, 3.0])
-    crashes = sorted(rng.sample([0.3, 0.8, 1.2, 1.7, 2.2, 2.7, 3.3, 4.0], rng.choice([1, 1, 2])))
-    downs = [rng.choice([0.2, 0.6, 1.5]) for _ in crashes]
+    crashes = sorted(rng.sample([0.3, 0.8, 1.2, 1.8, 2.2, 2.8, 3.3, 4.0], rng.choice([1, 1, 2])))
+    downs = [rng.choice([0.2, 0.7, 1.5]) for _ in crashes]     # (restart instants often fall on a callback instant)
+    if rng.random() < 0.5:
+        # the client's call reaches the restarted front end a few milliseconds after it is up - with message latency
+        # that is before the broker has redelivered the task's event
+        k = rng.randrange(len(crashes))
+        t_cb = round(crashes[k] + downs[k] + rng.choice([0.002, 0.005, 0.02]), 3)
+        cfg.update(E.policy_cfg(rng.choice(["latency-small", "latency-small", "shuffle"])))
     return seed, {"scn": scn, "t_cb": t_cb, "crashes": crashes, "downs": downs}
 
 
@@ -652,6 +658,10 @@ def check_token(case, seed):
                     if rec.get("done") and rec.get("status") == 200 and state["accepted"] is None:
                         state["accepted"] = sim.now
                     elif state["accepted"] is None:
+                        if rec.get("done") and isinstance(rec.get("status"), int) and 400 <= rec["status"] < 500:
+                            # the token is the one the task received: a live front end has no reason to refuse it,
+                            # whether or not the restarted engine has got round to the task's redelivered event yet
+                            state.setdefault("refused", []).append((sim.now, rec["status"], (rec.get("body") or "")[:80]))
                         sim.call_later(1.0, callback, None, kind="client", label="cb-retry")
                 sim.call_later(0.45, look, None, kind="client", label="cb-look")
             else:
@@ -685,6 +695,11 @@ def check_token(case, seed):
                              "idle" if all(state["idle"]) else "mid-handling",
                              "detail": "%s: SendTaskSuccess answered 200 at t=%.2f, the execution ended %r" % (
                                  ctx, state["accepted"] - res.sim.epoch, out and out[:1] + out[2:])})
+    if state.get("refused"):
+        t, st, body = state["refused"][0]
+        findings.append({"property": PROP, "rule": "valid-token-refused-around-restart", "witness": None,
+                         "detail": "%s: SendTaskSuccess with the task's own token answered %s %s at t=%.2f" % (
+                             ctx, st, body, t - res.sim.epoch)})
     if out is None and arn in mon.seq:
         findings.append({"property": PROP, "rule": "never-terminal", "witness": None, "detail": ctx})
     findings += never_acked(res, ctx, None)
